@@ -5,6 +5,7 @@
    current population, F), crossed with the parent under CR (parent first), and the result is clamped into
    [left, right]; so the trial handed to the fitness function lies in the box whatever donor and crossover return. -/
 import TFV.Generated.Src.DE_get_new_individ_g
+import TFV.Generated.Src.SHADE_get_new_individ_g
 import TFV.Properties.Src.BoundsControl
 
 namespace TFV.SrcTie
@@ -36,5 +37,16 @@ theorem C07_src_de_trial_in_box (x : List Int) (F CR : Int) (best : List Int) (p
   rw [C07_src_de_trial x F CR best pop left right donorFn crossFn hl hr]
   obtain ⟨y, h1, h2, h3⟩ := C07_src_bounds_control_in_box _ left right hl hr (by rw [← hl]; exact hbox)
   exact ⟨y, h1, by rw [h2, hl], by rw [hl]; exact h3⟩
+
+/-- SHADE's trial: donor from (parent, population, p-best indices, F, population ∪ archive), crossed with the parent
+    under CR (parent first), repaired with the PARENT as the reference point of the midpoint rule -/
+theorem C07_src_shade_trial (x : List Int) (F CR : Int) (pop : List (List Int)) (pbest : List Int) (arch : List (List Int))
+    (left right : List Int)
+    (donorFn : List Int → List (List Int) → List Int → Int → List (List Int) → Nat → List Int)
+    (crossFn : List Int → List Int → Int → Nat → List Int)
+    (repairFn : List Int → List Int → List Int → List Int → Nat → List Int) :
+    SHADE_get_new_individ_g x F CR pop pbest arch left right donorFn crossFn repairFn =
+      some (repairFn (crossFn x (donorFn x pop pbest F arch 0) CR 1) x left right 2) := by
+  simp [SHADE_get_new_individ_g]
 
 end TFV.SrcTie
